@@ -306,8 +306,21 @@ pub fn arb_value(cfg: GenCfg) -> BoxedStrategy<Value> {
         if cfg.eq_num_keys {
             alts.push((
                 2,
-                (-3i64..3, inner.clone(), inner.clone())
-                    .prop_map(|(n, a, b)| Value::Map(vec![(Value::int(n as i128), a), (Value::float(n as f64), b)]))
+                (-3i64..3, 0u8..6, any::<bool>(), inner.clone(), inner.clone())
+                    .prop_map(|(n, kind, swap, a, b)| {
+                        let (k1, k2) = match kind {
+                            0 | 1 => (Value::int(n as i128), Value::float(n as f64)),
+                            2 => (Value::float(0.0), Value::float(-0.0)),
+                            3 => (Value::int(1 << 53), Value::float(9007199254740992.0)),
+                            4 => (Value::Tuple(vec![Value::int(n as i128)]), Value::Tuple(vec![Value::float(n as f64)])),
+                            _ => (Value::list(vec![Value::float(0.0)]), Value::list(vec![Value::float(-0.0)])),
+                        };
+                        if swap {
+                            Value::Map(vec![(k2, a), (k1, b)])
+                        } else {
+                            Value::Map(vec![(k1, a), (k2, b)])
+                        }
+                    })
                     .boxed(),
             ));
         }
